@@ -23,7 +23,7 @@ theorem C07_results (acts : List Act) (s : S) (hr : run init acts = some s) :
       (x.2.1 = .errEOF → x.2.2.2.1 = true) ∧ (x.2.1 = .errClosed → x.2.2.2.2 = true) :=
   (good_run acts init s good_init hr).res
 
-/-- **C07_close_error_only_when_short** (D20, fixed by 4f0ff5f in /repo: see known_findings.jsonl). "A Reader call that needs n bytes
+/-- **C07_close_error_only_when_short** (D20, fixed by b59bbe9 in /repo: see known_findings.jsonl). "A Reader call that needs n bytes
 returns successfully once n bytes are buffered; if the connection closes FIRST it returns ErrEOF / ErrConnClosed": every call
 that returned a close error looked at the buffer AFTER it had learnt of the close (closing ≠ 0 loaded, or a closer's error
 received) and found fewer than n bytes.  In particular the history "reader sees Len() < n – the poller books the n bytes –
